@@ -5,7 +5,7 @@ CHECK = {
     "harness": ["internal/address/zz_verif_c26.go"],
     "entries": [
         {"fn": P + "vC26_roundtrip", "cover_optional": ("with-parent", "no-parent"),
-         "cases_quick": {"sysLen": [1, 2], "nameLen": [1, 2], "parentLen": [0, 2], "hostLen": [1, 3], "portDigits": [1, 4, 5]},
+         "cases_quick": {"sysLen": [1, 2], "nameLen": [2], "parentLen": [0, 2], "hostLen": [1, 3], "portDigits": [1, 5]},
          "cases_thorough": {"sysLen": [1, 2, 3], "nameLen": [1, 2, 3], "parentLen": [0, 1, 2], "hostLen": [1, 2, 3, 4], "portDigits": [1, 2, 3, 4, 5]}},
         {"fn": P + "vC26_roundtrip_ipv6", "cover_optional": ("with-parent", "no-parent"),
          "cases_quick": {"sysLen": [1], "nameLen": [2], "parentLen": [0, 1], "hostLen": [3, 4], "portDigits": [2, 5]},
